@@ -70,6 +70,7 @@ class Monitor:
                           multi_event_slot=0, initial_data_used=0, ancestor_inflight_at_promise=0)
         self.tokens = {}     # token -> conn list it was produced for (by source port)
         self.seen = {}       # (sim, slot, token) -> label of the first step that received it
+        self.out_times = {}  # sim -> integer output times of its real get_data replies
         for s, typ in self.types.items():
             if typ != "event-based":
                 self.pending[s][reftime.zero(self.groups[s])] = [("initial",)]
@@ -82,10 +83,23 @@ class Monitor:
     def v(self, rule, msg, **feat):
         self.viol.append(V(rule, msg, **feat))
 
-    def src_cache_init(self, c):
-        """the source simulator's output cache holds initial-data entries (cache on, some persistent
-        output of that simulator feeds a shifted/weak connection with initial data)"""
-        return bool(c) and self.cache and any(o.src == c.src and o.persistent and o.init for o in self.conns)
+    def src_cache_init(self, c, L=None):
+        """F10's regime: the cache is on, the source simulator's output cache holds initial-data entries (some
+        persistent output of it feeds a shifted/weak connection with initial data) AND the lookup can fall on them:
+        no real output of the source is old enough for this connection's lookup time (step time - shift), or one of
+        the initial entries sits at key 0 (weak connection without shift), whose dict position a real output at
+        time 0 inherits (lookups go by insertion order)."""
+        if not c or not self.cache:
+            return False
+        inits = [o for o in self.conns if o.src == c.src and o.persistent and o.init]
+        if not inits:
+            return False
+        if L is None:
+            return True
+        if any(not o.c.get("shift") for o in inits):
+            return True
+        lookup = L[0] - int(c.c.get("shift") or 0)
+        return not any(t <= lookup for t in self.out_times.get(c.src, []))
 
     # ------------------------------------------------------------------ events
     def run(self, res):
@@ -279,7 +293,7 @@ class Monitor:
                        kind=c.kind if c else "no_connection", cache=self.cache,
                        persistent=c.persistent if c else None, init=bool(c and c.init),
                        subtier_only=self.subtier_only(c, g, L), trigger=c.trigger if c else None,
-                       src_cache_init=self.src_cache_init(c))
+                       src_cache_init=self.src_cache_init(c, L))
                 continue
             if e[0] == "init_or_absent":
                 if has and g != e[1]:
@@ -287,7 +301,7 @@ class Monitor:
                            f"{s}@{L}: slot {slot} carries {g!r}; only the initial data or nothing is due",
                            kind=c.kind, cache=self.cache, persistent=False, init=True,
                            subtier_only=self.subtier_only(c, g, L), trigger=c.trigger,
-                           src_cache_init=self.src_cache_init(c))
+                           src_cache_init=self.src_cache_init(c, L))
                 continue
             want = e[1]
             if not has:
@@ -303,12 +317,12 @@ class Monitor:
                        + (f" (this slot was already served at an earlier sub-step of time {L[0]})" if early else ""),
                        kind=c.kind, cache=self.cache, persistent=c.persistent, init=bool(c.init),
                        subtier_only=False, trigger=c.trigger, early_same_time=early,
-                       src_cache_init=self.src_cache_init(c))
+                       src_cache_init=self.src_cache_init(c, L))
             elif g != want:
                 self.v(self.classify_wrong(s, L, slot, g, want, c),
                        f"{s}@{L}: slot {slot} carries {g!r}, expected {want!r}", kind=c.kind, cache=self.cache,
                        persistent=c.persistent, init=bool(c.init), subtier_only=self.subtier_only(c, g, L),
-                       trigger=c.trigger, src_cache_init=self.src_cache_init(c))
+                       trigger=c.trigger, src_cache_init=self.src_cache_init(c, L))
 
     def subtier_only(self, c, g, L):
         """the value g is due at the same integer time as the step L and only its sub-tier is later"""
@@ -373,6 +387,10 @@ class Monitor:
         ot = data.get("time", L[0]) if isinstance(data, dict) else L[0]
         Tout = L if ot == L[0] else reftime.from_world(self.groups[s], ot)
         self.seq += 1
+        try:
+            self.out_times.setdefault(s, []).append(int(Tout[0]))
+        except Exception:  # noqa
+            pass
         for c in self.outof[s]:
             if isinstance(data, dict) and c.seid in data and isinstance(data[c.seid], dict) \
                     and c.sattr in data[c.seid]:
